@@ -302,7 +302,7 @@ Qed.
 Definition demo7 : list op :=
   [OpAdd 2 200 [(10%N, 1%N)] []; OpAdd 3 150 [(11%N, 1%N)] []; OpAdd 4 400 [(20%N, 2%N); (21%N, 3%N)] [];
    OpSet 1 0 10 100; OpSet 2 20 (-8) 100; OpSet 3 0 (-12) 100; OpSet 4 0 (31990) 100].
-Definition demo_G : book := run true bd0 (newBook 1 100) demo7.
+Definition demo_G : book := Eval cbv beta iota delta [run fold_left demo7] in run true bd0 (newBook 1 100) demo7.
 Definition demo_sl : list (N * list (N * N)) :=
   [(1%N, [(10%N, 2%N); (11%N, 3%N)]); (2%N, [(20%N, 4%N)]); (3%N, [(21%N, 4%N)]); (4%N, [])].
 Definition demo_read : op := OpRead (serializeBook demo_G) [(1%N, 7%N); (2%N, 5%N); (3%N, 9%N); (4%N, 3%N)] demo_sl.
@@ -324,7 +324,7 @@ Example demo_steps_ok : steps_ok demo_succ bd0 (newBook 1 100) (demo7 ++ [demo_r
 Proof.
   pose proof demo_ops_ok as W. unfold demo_ops in W. cbn [ops_ok] in W.
   destruct W as [W1 [W2 [W3 [W4 [W5 [W6 [W7 _]]]]]]].
-  unfold demo7. cbn [app steps_ok op_ok2].
+  unfold demo7, demo_read, demo_G. cbn [app steps_ok op_ok2].
   assert (C : forall h pl, (forall p m, demo_succ p m = Some h -> In (m, p) pl) ->
               forall (g : book) p m, In p (bk_keys g) -> demo_succ p m = Some h -> In (m, p) pl) by (intros; eauto).
   split. { split; [exact W1|]. split; [vm_compute; reflexivity|]. split.
@@ -347,7 +347,7 @@ Proof.
   split. { vm_compute. reflexivity. }
   split. { split; [exact W7|]. split; vm_compute; reflexivity. }
   split. { vm_compute. reflexivity. }
-  split. { pose proof demo_read_ok as R. unfold demo_read, demo_G, demo7, run in *. cbn [fold_left] in *. exact R. }
+  split. { pose proof demo_read_ok as R. unfold demo_G in R. exact R. }
   split. { vm_compute. reflexivity. }
   exact I.
 Qed.
